@@ -35,9 +35,13 @@ impl<'a> RegExp<'a> {
             Self::convert_for_case_insensitive_matching(test_cases);
         }
         Self::sort(test_cases);
+        #[cfg(grex_verif)]
+        crate::verif::record("norm", || crate::verif::ser_strs(test_cases));
         let grapheme_clusters = Self::grapheme_clusters(test_cases, config);
         let mut dfa = Dfa::from(&grapheme_clusters, true, config);
         let mut ast = Expression::from(dfa, config);
+        #[cfg(grex_verif)]
+        crate::verif::record("expr", || crate::verif::ser_expr(&ast, config));
 
         if config.is_start_anchor_disabled && config.is_end_anchor_disabled {
             let mut regex = Self::convert_expr_to_regex(&ast, config);
@@ -50,11 +54,17 @@ impl<'a> RegExp<'a> {
             if !Self::is_each_test_case_matched_after_rotating_alternations(
                 &regex, &mut ast, test_cases,
             ) {
+                #[cfg(grex_verif)]
+                crate::verif::record("check1", || "false".to_string());
                 dfa = Dfa::from(&grapheme_clusters, false, config);
                 ast = Expression::from(dfa, config);
+                #[cfg(grex_verif)]
+                crate::verif::record("expr2", || crate::verif::ser_expr(&ast, config));
                 regex = Self::convert_expr_to_regex(&ast, config);
 
                 if !Self::regex_matches_all_test_cases(&regex, test_cases) {
+                    #[cfg(grex_verif)]
+                    crate::verif::record("check2", || "false".to_string());
                     let mut exprs = vec![];
                     for cluster in grapheme_clusters {
                         let literal = Expression::new_literal(cluster, config);
@@ -65,6 +75,8 @@ impl<'a> RegExp<'a> {
             }
         }
 
+        #[cfg(grex_verif)]
+        crate::verif::record("final", || crate::verif::ser_expr(&ast, config));
         Self { ast, config }
     }
 
@@ -117,18 +129,24 @@ impl<'a> RegExp<'a> {
             .iter()
             .map(|it| GraphemeCluster::from(it, config))
             .collect_vec();
+        #[cfg(grex_verif)]
+        crate::verif::record("clusters_g", || crate::verif::ser_clusters(&clusters, config));
 
         if config.is_char_class_feature_enabled() {
             for cluster in clusters.iter_mut() {
                 cluster.convert_to_char_classes();
             }
         }
+        #[cfg(grex_verif)]
+        crate::verif::record("clusters_k", || crate::verif::ser_clusters(&clusters, config));
 
         if config.is_repetition_converted {
             for cluster in clusters.iter_mut() {
                 cluster.convert_repetitions();
             }
         }
+        #[cfg(grex_verif)]
+        crate::verif::record("clusters_r", || crate::verif::ser_clusters(&clusters, config));
 
         clusters
     }
